@@ -51,6 +51,7 @@ func adWitness(a *schema.Advertisement, extra map[string]any) any {
 func runC05(c *vf.Ctx) {
 	c05SignVerify(c)
 	c05KeyAssignment(c)
+	c05Removal(c)
 }
 
 // one single-value mutation of a signed ad; returns nil if not applicable
@@ -453,5 +454,131 @@ func c05KeyAssignment(c *vf.Ctx) {
 		if c.WantSample(sub) {
 			c.Sample(sub, map[string]any{"shape": sh.String(), "entries": len(eps), "candidate_keys": len(cands), "assignments_enumerated": total})
 		}
+	}
+}
+
+// removal advertisements that carry extended providers: whichever way such an ad gets its signatures, it verifies
+// only if the extended-provider clauses hold (the main provider is listed, every entry is signed by the identity it
+// names over this ad); an ad whose entries are unsigned, taken from another ad, or forged must not verify
+func c05Removal(c *vf.Ctx) {
+	const sub = "removal-with-extended-providers"
+	if !c.Active(sub) {
+		return
+	}
+	ids := allIdents()
+	n := c.N(300, 10000)
+	for i := 0; i < n; i++ {
+		if !c.Mine(sub, i) {
+			continue
+		}
+		r := c.Rand(sub, i)
+		main := ids[r.Intn(len(ids))]
+		var ad *schema.Advertisement
+		var sh adShape
+		var eps []Ident
+		for {
+			ad, sh, eps = genAd(r, main, ids)
+			if sh.EP && len(eps) >= 2 {
+				break
+			}
+		}
+		ad.IsRm = false
+		c.Cur(sub, i, sh.String())
+		keys := map[string]crypto.PrivKey{}
+		for _, e := range eps {
+			keys[e.ID.String()] = e.Priv
+		}
+		good := cloneAd(ad)
+		if err := good.SignWithExtendedProviders(main.Priv, fetcherFor(keys)); err != nil {
+			c.Fail(sub, i, "sign-error", err.Error(), nil)
+			continue
+		}
+		// the main envelope of a removal ad with the same values (signed by the library, without the list)
+		rmMain := cloneAd(ad)
+		rmMain.IsRm = true
+		rmMain.ExtendedProvider = nil
+		if err := rmMain.Sign(main.Priv); err != nil {
+			c.Fail(sub, i, "sign-error", err.Error(), nil)
+			continue
+		}
+		mainIdx := -1
+		for k, e := range eps {
+			if e.ID == main.ID {
+				mainIdx = k
+			}
+		}
+		type variant struct {
+			name string
+			make func() *schema.Advertisement
+		}
+		build := func(f func(b *schema.Advertisement)) func() *schema.Advertisement {
+			return func() *schema.Advertisement {
+				b := cloneAd(good)
+				b.IsRm = true
+				b.Signature = append([]byte(nil), rmMain.Signature...)
+				f(b)
+				return b
+			}
+		}
+		variants := []variant{
+			{"entries-signed-for-the-non-removal-ad", build(func(b *schema.Advertisement) {})},
+			{"entries-unsigned", build(func(b *schema.Advertisement) {
+				for k := range b.ExtendedProvider.Providers {
+					b.ExtendedProvider.Providers[k].Signature = nil
+				}
+			})},
+			{"entries-with-garbage-signatures", build(func(b *schema.Advertisement) {
+				for k := range b.ExtendedProvider.Providers {
+					b.ExtendedProvider.Providers[k].Signature = rbytes(r, 40+r.Intn(80))
+				}
+			})},
+			{"main-provider-not-listed", build(func(b *schema.Advertisement) {
+				if mainIdx >= 0 {
+					ps := b.ExtendedProvider.Providers
+					b.ExtendedProvider.Providers = append(append([]schema.Provider(nil), ps[:mainIdx]...), ps[mainIdx+1:]...)
+				}
+			})},
+			{"entry-sealed-by-the-ad-signer-instead-of-the-identity-it-names", build(func(b *schema.Advertisement) {
+				for k, e := range eps {
+					if e.ID != main.ID && mainIdx >= 0 {
+						b.ExtendedProvider.Providers[k].Signature = append([]byte(nil), b.ExtendedProvider.Providers[mainIdx].Signature...)
+						break
+					}
+				}
+			})},
+		}
+		for _, v := range variants {
+			b := v.make()
+			w := func() any { return adWitness(b, map[string]any{"variant": v.name, "is_rm": true}) }
+			c.Guard(sub, i, w, func() {
+				if _, err := b.VerifySignature(); err == nil {
+					c.Fail(sub, i, "removal-ad-with-invalid-extended-providers-verifies:"+v.name, "", w())
+				}
+			})
+			c.Eval(1)
+		}
+		// signing such an ad through the library: refused, or (if ever allowed) the result must be a fully valid ad
+		s2 := cloneAd(ad)
+		s2.IsRm = true
+		if err := s2.SignWithExtendedProviders(main.Priv, fetcherFor(keys)); err != nil {
+			c.Inc("removal_with_extended_providers_refused_by_sign")
+		} else {
+			c.Inc("removal_with_extended_providers_signed")
+			w := func() any { return adWitness(s2, map[string]any{"variant": "signed by the library", "is_rm": true}) }
+			if got, err := s2.VerifySignature(); err != nil || got != main.ID {
+				c.Fail(sub, i, "library-signed-removal-ad-does-not-verify", fmt.Sprint(err), w())
+			}
+			for k := range s2.ExtendedProvider.Providers {
+				b := cloneAd(s2)
+				b.ExtendedProvider.Providers = append([]schema.Provider(nil), s2.ExtendedProvider.Providers...)
+				b.ExtendedProvider.Providers[k].Signature = flipOne(r, b.ExtendedProvider.Providers[k].Signature)
+				if _, err := b.VerifySignature(); err == nil {
+					c.Fail(sub, i, "removal-ad-with-invalid-extended-providers-verifies:entry-signature-altered", fmt.Sprint("entry ", k), w())
+				}
+			}
+		}
+		c.Eval(1)
+		c.Inc("removal_ep_cases")
+		c.Distinct(sub, sh.String())
 	}
 }
